@@ -111,6 +111,20 @@ def corpus(seed):
         out.append((f'render:{i}', 'render', (text, ['mysql', 'postgresql', 'sqlite', 'mssql'][i % 4])))
     for i, s in enumerate(['select cast(a as foo) from t', 'select count(a, b) from t', 'create table t (a serial, b int)']):
         out.append((f'render-odd:{i}', 'render', (s, 'mysql')))
+    # renderers built from the caller's dialect OBJECT (after, before and between renderers built from a name); casts, whose
+    # spelling depends on what the dialect object believes about the server
+    for i, (s, d) in enumerate([('select cast(a as float), cast(b as int), cast(c as char) from t', 'mysql-object'),
+                                ('select cast(a as float) from t', 'mysql'), ('select cast(a as float), a::double from t', 'postgresql-object'),
+                                ('select cast(a as float) from t limit 2 offset 1', 'mssql-object'), ('select cast(a as date), b from t', 'sqlite-object'),
+                                ('insert into t (a, b) values (1, 2), (3, 4)', 'mssql-object'), ('select cast(a as float) from t', 'mssql')]):
+        out.append((f'render-obj:{i}', 'render', (s, d)))
+    # prepared statements: the column-discovery steps of joins (order of the steps is part of the result)
+    for i, s in enumerate(['SELECT o.id, c.name, p.title FROM int1.orders AS o JOIN int1.customers AS c ON o.cid = c.id JOIN int1.products AS p ON o.pid = p.id WHERE o.id = ?',
+                           'SELECT * FROM int1.orders AS o JOIN int1.customers AS c ON o.cid = c.id',
+                           'SELECT c.name, o.id FROM int1.a AS o JOIN int1.b AS c ON o.x = c.x JOIN int1.c AS d ON d.x = c.x JOIN int1.d AS e ON e.x = d.x',
+                           'SELECT t.a, t.b FROM int1.t1 AS t WHERE t.c = ?', 'SELECT e.x, d.x, c.name, o.id FROM int1.a AS o JOIN int1.b AS c ON o.x = c.x JOIN int1.c AS d ON d.x = c.x JOIN int1.d AS e ON e.x = d.x',
+                           'SELECT t.id, m.y FROM int1.t1 AS t JOIN mindsdb.m1 AS m WHERE t.a = ?']):
+        out.append((f'prepare:{i}', 'prepare', s))
     return out
 
 
@@ -133,8 +147,21 @@ def call(api, payload, shared=None):
         if api == 'render':
             from mindsdb_sql.render.sqlalchemy_render import SqlalchemyRender
             text, dialect = payload
+            if dialect.endswith('-object'):
+                # the renderer is given the caller's dialect object instead of a name
+                import importlib
+                obj = importlib.import_module('sqlalchemy.dialects.' + dialect[:-7]).dialect
+                return ['ok', SqlalchemyRender(obj).get_string(parse_sql(text, 'mindsdb'))]
             rd = shared['renders'][dialect] if shared and 'renders' in shared else SqlalchemyRender(dialect)
             return ['ok', rd.get_string(parse_sql(text, 'mindsdb'))]
+        if api == 'prepare':
+            from mindsdb_sql.planner import QueryPlanner
+            from vf.props.c12 import FakeExecutor
+            pl, ex, out = QueryPlanner(**fresh_catalog()), FakeExecutor(), []
+            for st in pl.prepare_steps(parse_sql(payload, 'mindsdb')):
+                out.append(monitors.struct_key(st))
+                st.set_result(ex.answer(st))
+            return ['ok', out, len(out)]
     except Exception as e:
         return ['err', type(e).__name__, str(e)[:300]]
     raise ValueError(api)
@@ -187,6 +214,17 @@ def class_state():
         st['nstates:' + d] = len(P._lrtable.lr_action)
     for d, L in monitors.lexer_classes().items():
         st['tokens:' + d] = sorted(L.tokens)
+    # the SQLAlchemy dialect classes are the caller's objects: simple-valued class attributes must stay as imported
+    import importlib
+    for d in ('mysql', 'postgresql', 'sqlite', 'mssql', 'oracle'):
+        try:
+            cls = importlib.import_module('sqlalchemy.dialects.' + d).dialect
+        except Exception:
+            continue
+        for klass in cls.__mro__[:3]:
+            for k, v in sorted(vars(klass).items()):
+                if not k.startswith('__') and isinstance(v, (int, float, str, bool, tuple, type(None))):
+                    st[f'sa:{d}:{klass.__name__}.{k}'] = repr(v)[:80]
     return core.digest(core.canon(st), n=16)
 
 
